@@ -449,7 +449,7 @@ pub fn run_c07(tier: &str, seed: u64, replay: Option<&str>) -> (Meta, Report) {
     let meta = Meta {
         property: "C07",
         level: "exploration",
-        rule: "scripted = one real sending daemon against a scripted receiver: random sizes around segment boundaries (1..12 segments of 16/32/64/100 bytes), 1-3 NAK injections per run of shapes {overlapping, unsorted, empty list, duplicates, start>end, (x,x), reaching beyond EOF, entirely beyond EOF, longer than a segment, whole file, (0,0), random mixture}, each fired after a chosen arrival index of the first pass (so that it reaches the sender while the pass is running) or after the EOF; every third case walks the shape list systematically. two-daemon = the C01 random family and the C02 single-fault family (real receiver, immediate-mode NAKs during the first pass) judged by the same byte-level oracle. distinct_nontrivial = distinct (config, size, event-order) signatures among runs with at least one file-data PDU checked.".into(),
+        rule: "scripted = one real sending daemon against a scripted receiver: random sizes around segment boundaries (1..12 segments of 16/32/64/100 bytes), 1-3 NAK injections per run of shapes {overlapping, unsorted, empty list, duplicates, start>end, (x,x), reaching beyond EOF, entirely beyond EOF, longer than a segment, whole file, (0,0), random mixture}, each fired after a chosen arrival index of the first pass (so that it reaches the sender while the pass is running) or after the EOF; every third case walks the shape list systematically. two-daemon = the C01 random family and the C02 single-fault family (real receiver, immediate-mode NAKs during the first pass) judged by the same byte-level oracle, which also runs over four families of other properties' workloads (C19 rand: suspensions; C03 primseq: primitive sequences; C10 rand: cancels; C02 adaptive: long recoveries). distinct_nontrivial = distinct (config, size, event-order) signatures among runs with at least one file-data PDU checked.".into(),
         exhaustive: false,
         assumptions: vec!["NAK ranges reach at most a few segments beyond the end of the file (an unbounded range makes the sender enumerate 2^32/segment entries; recorded as an observation, not judged here)".into(), "zero-length file-data PDUs carry nothing and are only counted".into(), "first-pass tiles are recognised by position: a PDU equal to the next tile advances the cursor, every other data PDU must be covered by requests delivered earlier".into()],
         require: vec![("c07_retransmissions_checked".into(), 500), ("c07_naks_with_obligation".into(), 300), ("c07_eof_checked".into(), 500), ("c07_metadata_checked".into(), 500), ("c07_runs_with_suspend_resume_at_sender".into(), 100)],
@@ -458,9 +458,8 @@ pub fn run_c07(tier: &str, seed: u64, replay: Option<&str>) -> (Meta, Report) {
     if let Some(r) = replay {
         let (p, fam, idx, sd) = parse_case(r);
         let case = match p.as_str() {
-            "C01" => crate::p_xfer::c01_case(&fam, idx, sd),
-            "C02" => crate::p_xfer::c02_case(&fam, idx, sd),
-            _ => c07_case(&fam, idx, sd),
+            "C07" => c07_case(&fam, idx, sd),
+            _ => crate::p_xfer::any_case(r),
         };
         return (meta, run_single(case.expect("case"), judge_c07));
     }
@@ -474,6 +473,14 @@ pub fn run_c07(tier: &str, seed: u64, replay: Option<&str>) -> (Meta, Report) {
     let n2 = 10_320 / st;
     rep.merge(run_cases(n2, "c07-c02sys1", move |i| crate::p_xfer::c02_case("sys1", i * st, seed), judge_c07));
     rep.add("cases:two-daemon-single-fault", n2 as u64);
+    // the same byte-level oracle over other properties' workloads: suspensions, primitive sequences, cancels,
+    // the adaptive dropper (long recoveries with many NAK rounds)
+    let nx = if thorough { 100_000 } else { 800 };
+    rep.merge(run_cases(nx, "c07-x-c19rand", move |i| crate::p_proto::c19_case("rand", i, seed), judge_c07));
+    rep.merge(run_cases(nx, "c07-x-c03primseq", move |i| crate::p_xfer::c03_case("primseq", i, seed), judge_c07));
+    rep.merge(run_cases(nx, "c07-x-c10rand", move |i| crate::p_final::c10_case("rand", i, seed), judge_c07));
+    rep.merge(run_cases(nx, "c07-x-c02adaptive", move |i| crate::p_xfer::c02_case("adaptive", i, seed), judge_c07));
+    rep.add("cases:cross(c19-rand,c03-primseq,c10-rand,c02-adaptive)", 4 * nx as u64);
     (meta, rep)
 }
 
